@@ -7,9 +7,14 @@ package api
 //@ spec validPerm(p Permission) bool = 1 <= p && p <= 4
 //@ spec perm(t *AuthToken, readMethod bool) Permission = readMethod ? t.Read : t.Write
 
+// the method class of a request that is not a CORS preflight depends on its own method only (a
+// header must not turn a write into a read)
 //@ func getEffectiveMethod
 //@   requires r != nil
 //@   ensures ok ==> eMethod != ""
+//@   ensures r.Method != "OPTIONS" && ok ==> (readMethod == (r.Method == "GET" || r.Method == "HEAD"))
+//@   ensures r.Method != "OPTIONS" ==> (ok == (r.Method == "GET" || r.Method == "HEAD" || r.Method == "POST" || r.Method == "PUT" || r.Method == "DELETE"))
+//@   ensures r.Method != "OPTIONS" && ok && !readMethod ==> eMethod == r.Method
 
 //@ func parseAPIPermission
 //@   ensures r0 == 1 || r0 == 2 || r0 == 3
